@@ -555,6 +555,10 @@ impl<'ast> Visit<'ast> for Collect {
             .map(|p| (br(p.span()).0, br(p.span()).1, matches!(p, syn::Pat::Type(_)), matches!(p, syn::Pat::Ident(_))))
             .collect();
         let (bs, be) = br(c.body.span());
+        if !matches!(*c.body, syn::Expr::Block(_)) {
+            // an expression-bodied closure: its body can carry an `after` anchor (R12 names it)
+            self.stmts.push((bs, be, true));
+        }
         self.closures.push(ClosureInfo {
             params,
             or2_end: br(c.or2_token.span).1,
@@ -1181,12 +1185,12 @@ fn finish(
                 }
                 cx.ins(c.or2_end, &format!(" -> ({}) {} ", ret, spec.trim()), true);
                 if !c.body_is_block || !destructure.is_empty() {
-                    cx.ins_prio(c.body_start, &format!("{{ {}", destructure), destructure.is_empty(), -1);
-                    cx.ins_prio(c.body_end, " }", destructure.is_empty(), 1);
+                    cx.ins_prio(c.body_start, &format!("{{ {}", destructure), destructure.is_empty(), -2);
+                    cx.ins_prio(c.body_end, " }", destructure.is_empty(), 2);
                 }
             } else if !destructure.is_empty() {
-                cx.ins_prio(c.body_start, &format!("{{ {}", destructure), false, -1);
-                cx.ins_prio(c.body_end, " }", false, 1);
+                cx.ins_prio(c.body_start, &format!("{{ {}", destructure), false, -2);
+                cx.ins_prio(c.body_end, " }", false, 2);
             }
         }
     }
